@@ -276,6 +276,19 @@ func PreClose(site int, ch interface{}) {
 	t.addNote(note{kind: noteClosed, obj: id, keep: ch})
 }
 
+// AdoptClosed tells the model that ch - a channel closed outside the simulator's view, such as the Done channel of
+// a real context that was cancelled before it was handed to the library - is closed.
+//
+//go:norace
+func AdoptClosed(ch interface{}) {
+	t := me()
+	id, _ := chanID(ch)
+	if t == nil || id == 0 {
+		return
+	}
+	t.addNote(note{kind: noteClosed, obj: id, keep: ch})
+}
+
 // SendCase marks an entry of Select's channel list as a send case.
 type SendCase struct{ Ch interface{} }
 
